@@ -1,4 +1,5 @@
 import QM.Quote
+import QM.EscLemmas
 namespace P
 
 @[simp] theorem ef_unquote : execFlags.unquote = true := rfl
